@@ -132,7 +132,7 @@ func zzC11_cer() {
 	st := New(zzSettings(withAddrs))
 	kmax := vParam("K", 2)
 	if variant != 0 {
-		kmax = 1
+		kmax = vParam("VARK", 1)
 	}
 	m, oh, or, inbandPresent, inband, apps := zzBuildCER(kmax, variant)
 	c := &zzConn{local: "192.0.2.77:3868"}
